@@ -233,6 +233,11 @@ func lexMessageHeader(l *lexer) stateFn {
 			l.emit(tokenTypeLeftAngleBracket)
 			return lexMessageText
 		default:
+			if unicode.IsSpace(r) {
+				// other white space (vertical tab, form feed, NBSP, ...) separates tokens too
+				l.ignore()
+				continue
+			}
 			for {
 				r := l.next()
 				if r == eof || unicode.IsSpace(r) || strings.HasPrefix(l.input[l.pos-1:], "//") {
